@@ -331,6 +331,10 @@ def step (st : DSt) (toks : List String) : DSt × String :=
       | none => ({ st with table := st.table.push e }, "ok")
     | none => (st, "bad-env")
   | ["new", c] => (st.createFresh c (stratsOf c), "ok")
+  -- `ChaperoneLoop(generator, chaperone=<addressed instance>, schema=…)`: the wrapper stores its arguments, nothing else
+  | ["loop"] => (st.ensure, "ok")
+  -- `BioAgent(...).chaperone`: a `Chaperone()` the library constructed itself (default configuration)
+  | ["agent"] => (st.createFresh "none" [], "ok")
   | ["list", c] =>
     -- the caller creates a list object and keeps a reference to it
     ({ st with heap := st.heap.newList (stratsOf c), callerLists := st.callerLists ++ [st.heap.cells.length] }, "ok")
